@@ -1,7 +1,8 @@
 (** C08 — the joint model prior equals the product of the conditional prior densities.
     Model: Graph/Prior.v (augmenter + ModelPrior._evaluate_pdf over the graph calculus).
     Proofs: Proofs/C08_Prior.v (structure), Proofs/C08_Algebra.v (products, log sums, stencil),
-    Proofs/C08_History.v (array inputs, shapes of the answers, histories of calls and objects). *)
+    Proofs/C08_History.v (array inputs, shapes of the answers, histories of calls and objects),
+    Proofs/C08_Gradient.v (gradient_logpdf on array inputs: row independence, forms, soundness). *)
 From Coq Require Import List String ZArith QArith Arith Bool Sorting.Permutation.
 From Elfi Require Import Graph.Net Graph.Edit Graph.Prior Proofs.C14_Edit Proofs.C08_Prior Proofs.C08_Algebra Proofs.C08_History.
 Import ListNotations.
@@ -297,3 +298,136 @@ Proof.
   - destruct log; vm_compute; reflexivity.
 Qed.
 Print Assumptions C08_compose_example.
+
+(** ---- gradient_logpdf on array inputs (wave 3) ---- *)
+From Coq Require Import PrimFloat.
+From Elfi Require Import Proofs.C08_Gradient.
+
+(** A matrix with one point per row is answered with one gradient row per point, row i being the
+    numgrad stencil of point i alone (central differences of the log density around point i, zeros
+    when the stencil OF POINT i reaches a point of zero density), for every log density, every
+    stepsize form (default, one, one per dimension) and any number of rows. *)
+Theorem C08_gradient_matrix_rows :
+  forall lp dim h hs rows an impl,
+    0 < dim -> Forall (fun r : fpoint => List.length r = dim) rows ->
+    expand_h dim (match h with Some v => v | None => [default_step] end) = Some hs ->
+    grad_call lp dim {| g_step := h; g_shape := [List.length rows; dim]; g_data := List.concat rows; g_analytic := an; g_impl := impl |}
+    = option_map (fun gs => ([List.length rows; dim], List.concat gs)) (all_some (map (grad_point lp hs) rows)).
+Proof. exact grad_call_matrix. Qed.
+Print Assumptions C08_gradient_matrix_rows.
+
+(** The gradient row of a point depends on the log density only through that point's own 3*dim
+    stencil points: whatever the log density is elsewhere - in particular on the stencils of the
+    other rows of a matrix, -inf included - the row is the same. *)
+Theorem C08_gradient_row_local :
+  forall lp lp' hs x,
+    (forall p, In p (stencil_points x hs) -> lp p = lp' p) -> grad_point lp hs x = grad_point lp' hs x.
+Proof. exact grad_point_local. Qed.
+Print Assumptions C08_gradient_row_local.
+
+(** Row i of the answer to a matrix is the answer to point i handed over alone. *)
+Theorem C08_gradient_row_alone :
+  forall lp dim h hs rows an an' impl impl' i r gs,
+    0 < dim -> Forall (fun r : fpoint => List.length r = dim) rows ->
+    expand_h dim (match h with Some v => v | None => [default_step] end) = Some hs ->
+    nth_error rows i = Some r ->
+    grad_call lp dim {| g_step := h; g_shape := [List.length rows; dim]; g_data := List.concat rows; g_analytic := an; g_impl := impl |}
+    = Some ([List.length rows; dim], List.concat gs) ->
+    all_some (map (grad_point lp hs) rows) = Some gs ->
+    grad_call lp dim {| g_step := h; g_shape := [1; dim]; g_data := r; g_analytic := an'; g_impl := impl' |}
+    = option_map (fun g => ([1; dim], g)) (nth_error gs i).
+Proof. exact grad_row_alone. Qed.
+Print Assumptions C08_gradient_row_alone.
+
+(** One point handed over as a one-row matrix, as a vector (several parameters) or as a scalar /
+    one-element vector (one parameter) gets the same gradient row. *)
+Theorem C08_gradient_single_point_forms :
+  forall lp dim h hs row an impl,
+    0 < dim -> List.length row = dim ->
+    expand_h dim (match h with Some v => v | None => [default_step] end) = Some hs ->
+    let ans sh := grad_call lp dim {| g_step := h; g_shape := sh; g_data := row; g_analytic := an; g_impl := impl |} in
+    let g := grad_point lp hs row in
+    ans [1; dim] = option_map (fun g => ([1; dim], g)) g
+    /\ (1 < dim -> ans [dim] = option_map (fun g => ([dim], g)) g)
+    /\ (dim = 1 -> ans [] = option_map (fun g => ([dim], g)) g /\ ans [1] = option_map (fun g => ([1; dim], g)) g).
+Proof. exact grad_single_forms. Qed.
+Print Assumptions C08_gradient_single_point_forms.
+
+(** For every proper input of n points the model's answer has shape (dim,) for a single point given
+    as scalar / vector and (n, dim) otherwise. *)
+Theorem C08_gradient_answer_shape :
+  forall lp dim c n axis sh vs,
+    0 < dim ->
+    proper_form dim (g_shape c) = Some (n, axis) ->
+    List.length (g_data c) = n * dim ->
+    grad_call lp dim c = Some (sh, vs) ->
+    sh = (if axis then [n; dim] else [dim]).
+Proof. exact grad_call_shape. Qed.
+Print Assumptions C08_gradient_answer_shape.
+
+(** The decidable statement evaluated on the implementation's answer means what it says: the
+    expected shape, as many gradient rows as points, and row i passes [row_ok] at point i, i.e.
+    (next two theorems) it is all zeros when the stencil of point i reaches zero density, and equals
+    the central differences of the log density around point i (and the analytic derivative where
+    supplied) when the log density is finite on that stencil. *)
+Theorem C08_gradient_ok_sound :
+  forall lp dim c n axis hs,
+    proper_form dim (g_shape c) = Some (n, axis) ->
+    List.length (g_data c) = n * dim ->
+    expand_h dim (step_of c) = Some hs ->
+    ok_gcall lp dim c = true ->
+    exists rows vs grows,
+      rows_ofA (List.length (g_data c)) dim (g_data c) = Some rows
+      /\ g_impl c = Some ((if axis then [n; dim] else [dim]), vs)
+      /\ rows_ofA (List.length vs) dim vs = Some grows
+      /\ List.length grows = List.length rows
+      /\ forall i x, nth_error rows i = Some x ->
+           exists g an, nth_error grows i = Some g /\ row_ok lp hs x g an = true.
+Proof. exact ok_gcall_sound. Qed.
+Print Assumptions C08_gradient_ok_sound.
+
+Theorem C08_gradient_row_ok_zero :
+  forall lp hs x g an f0 f1 f2,
+    stencil_values lp hs x = Some (f0, f1, f2) -> existsb is_neginf (f0 ++ f1 ++ f2) = true ->
+    row_ok lp hs x g an = true ->
+    List.length g = List.length x /\ Forall (fun v => PrimFloat.eqb v 0%float = true) g.
+Proof. exact row_ok_zero. Qed.
+Print Assumptions C08_gradient_row_ok_zero.
+
+Theorem C08_gradient_row_ok_finite :
+  forall lp hs x g an f0 f1 f2,
+    stencil_values lp hs x = Some (f0, f1, f2) -> existsb is_neginf (f0 ++ f1 ++ f2) = false ->
+    forallb is_finite (f0 ++ f1 ++ f2) = true ->
+    row_ok lp hs x g an = true ->
+    fclose_list tol_stencil g (cdiffs f2 f0 hs) = true /\ analytic_ok g an = true.
+Proof. exact row_ok_finite. Qed.
+Print Assumptions C08_gradient_row_ok_finite.
+
+(** Non-vacuity: one parameter, stepsize 0.25, a log density with values -1, -0.5, -1.5 at 0.25, 0.5,
+    0.75, -2 at 1 and -inf at 1.25 (the support ends between 1 and 1.25).  The matrix [[0.5]; [1.0]]:
+    point 0.5 has a finite stencil (central difference (-1.5 - -1) / 0.5 = -1), the stencil of point
+    1.0 reaches -inf (zeros).  The answer [[-1]; [0]] and the answers to the rows alone correspond and
+    satisfy the statement; the answer [[0]; [0]] (zero-gradient rule applied to the whole matrix
+    because ONE row reaches -inf) is rejected by both; so is a wrong derivative and a wrong shape. *)
+Definition ex_lp : list (fpoint * float) :=
+  [([0.25%float], (-1)%float); ([0.5%float], (-0.5)%float); ([0.75%float], (-1.5)%float);
+   ([1%float], (-2)%float); ([1.25%float], neg_infinity)].
+Definition ex_gcall (sh : list nat) (d : list float) (ans : option (list nat * list float)) : gcall :=
+  {| g_step := Some [0.25%float]; g_shape := sh; g_data := d; g_analytic := []; g_impl := ans |}.
+Definition ex_gcase (cs : list gcall) : tcase := Gradient {| gc_dim := 1; gc_table := ex_lp; gc_calls := cs |}.
+Example C08_gradient_example :
+  let good := ex_gcase [ex_gcall [2; 1] [0.5; 1]%float (Some ([2; 1], [-1; 0]%float));
+                        ex_gcall [2] [0.5; 1]%float (Some ([2; 1], [-1; 0]%float));
+                        ex_gcall [] [0.5]%float (Some ([1], [(-1)%float]));
+                        ex_gcall [1; 1] [1]%float (Some ([1; 1], [0%float]))] in
+  let whole_batch_zero := ex_gcase [ex_gcall [2; 1] [0.5; 1]%float (Some ([2; 1], [0; 0]%float))] in
+  let wrong_derivative := ex_gcase [ex_gcall [1] [0.5]%float (Some ([1; 1], [(-0.5)%float]))] in
+  let nonzero_outside := ex_gcase [ex_gcall [1] [1]%float (Some ([1; 1], [(-3)%float]))] in
+  let wrong_shape := ex_gcase [ex_gcall [2; 1] [0.5; 1]%float (Some ([2], [-1; 0]%float))] in
+  grad_call (table_lookup ex_lp) 1 (ex_gcall [2; 1] [0.5; 1]%float None) = Some ([2; 1], [-1; 0]%float)
+  /\ agree_t good = true /\ ok_t good = true
+  /\ agree_t whole_batch_zero = false /\ ok_t whole_batch_zero = false
+  /\ agree_t wrong_derivative = false /\ ok_t wrong_derivative = false
+  /\ agree_t nonzero_outside = false /\ ok_t nonzero_outside = false
+  /\ agree_t wrong_shape = false /\ ok_t wrong_shape = false.
+Proof. vm_compute. repeat split. Qed.
